@@ -106,6 +106,34 @@ class DictSub(dict):
 Pair = collections.namedtuple("Pair", "first second")
 Triple = collections.namedtuple("Triple", "a b c")
 
+
+class PairSub(Pair):
+    pass
+
+
+class _Tag(object):
+    """a mixin that contributes nothing: class X(_Tag, StrSub) has the supported type three steps down its MRO"""
+    __slots__ = ()
+
+
+_DEEPER = {}
+
+
+def _sub(rng, cls):
+    """the subclass itself, a subclass of it (the supported type is a grandparent) or a mixin combination of it"""
+    r = rng.random()
+    if r < 0.6:
+        return cls
+    return _DEEPER[(cls, r < 0.85)]
+
+
+for _c in (StrSub, BytesSub, ByteArraySub, IntSub, FloatSub, DecimalSub, UUIDSub, DateTimeSub, DateSub, TimeSub, ListSub, TupleSub, SetSub,
+           FrozenSetSub, DictSub):
+    for _deep, _suffix, _bases in ((True, "2", (_c,)), (False, "M", (_Tag, _c))):
+        _k = type(_c.__name__ + _suffix, _bases, {"__module__": __name__})
+        globals()[_k.__name__] = _k         # picklable: found by attribute lookup on this module
+        _DEEPER[(_c, _deep)] = _k
+
 EPOCH = datetime.datetime(1970, 1, 1)
 INJECTION_TEXTS = ["x' OR 1=1 --", "'; DROP TABLE ks.t; --", "' OR ''='", "a' AND x = 2 AND y = 'b", "\\' OR 1=1 --", "\\", "'", "''", "'''",
                    "$$", "$$ OR 1=1 $$", "%s", "%(p0)s", "%%", "%", "/* c */", "-- c", "// c", "x'; --\n", "a\nb", "a\rb", "\x00", "a\x00'b",
@@ -222,14 +250,14 @@ def to_py(rng, t, v, st, hashable=False):
     if k == "text":
         if st.want_suspect and r < 0.5:
             st.want_suspect = False
-            o = StrSub(v)
+            o = _sub(rng, StrSub)(v)
             st.suspects.append(("str", o))
             return o
         return v
     if k == "blob":
         if st.want_suspect and r < 0.5:
             st.want_suspect = False
-            o = BytesSub(v) if (hashable or rng.random() < 0.5) else ByteArraySub(v)
+            o = _sub(rng, BytesSub)(v) if (hashable or rng.random() < 0.5) else _sub(rng, ByteArraySub)(v)
             st.suspects.append(("bytes", o))
             return o
         if hashable:
@@ -238,13 +266,13 @@ def to_py(rng, t, v, st, hashable=False):
     if k in ("tinyint", "smallint", "int", "bigint", "varint"):
         if r < 0.15:
             st.tags.append("int-subclass")
-            return IntSub(v)
+            return _sub(rng, IntSub)(v)
         return v
     if k == "boolean":
         return bool(v)
     if k == "double":
         if r < 0.2:
-            o = FloatSub(v)
+            o = _sub(rng, FloatSub)(v)
             if math.isinf(v):
                 if not st.want_suspect:
                     return v
@@ -257,19 +285,19 @@ def to_py(rng, t, v, st, hashable=False):
     if k == "decimal":
         if r < 0.15:
             st.tags.append("decimal-subclass")
-            return DecimalSub(v)
+            return _sub(rng, DecimalSub)(v)
         return v
     if k == "uuid":
         if r < 0.15:
             st.tags.append("uuid-subclass")
-            return UUIDSub(int=v.int)
+            return _sub(rng, UUIDSub)(int=v.int)
         return v
     if k == "timestamp":
         extra_us = rng.choice([0, 0, 1, 499, 500, 999, rng.randint(0, 999)])
         dt = EPOCH + datetime.timedelta(milliseconds=v, microseconds=extra_us)
         if st.want_suspect and r < 0.5:
             st.want_suspect = False
-            o = DateTimeSub(dt.year, dt.month, dt.day, dt.hour, dt.minute, dt.second, dt.microsecond)
+            o = _sub(rng, DateTimeSub)(dt.year, dt.month, dt.day, dt.hour, dt.minute, dt.second, dt.microsecond)
             st.suspects.append(("temporal", o))
             return o
         if r < 0.75:
@@ -282,7 +310,7 @@ def to_py(rng, t, v, st, hashable=False):
         if in_range and st.want_suspect and r < 0.5:
             st.want_suspect = False
             d = datetime.date(1970, 1, 1) + datetime.timedelta(days=v)
-            o = DateSub(d.year, d.month, d.day)
+            o = _sub(rng, DateSub)(d.year, d.month, d.day)
             st.suspects.append(("temporal", o))
             return o
         if in_range and r < 0.7:
@@ -293,7 +321,7 @@ def to_py(rng, t, v, st, hashable=False):
         as_time = lambda cls: cls(us // 3600000000, us // 60000000 % 60, us // 1000000 % 60, us % 1000000)
         if rest == 0 and st.want_suspect and r < 0.5:
             st.want_suspect = False
-            o = as_time(TimeSub)
+            o = as_time(_sub(rng, TimeSub))
             st.suspects.append(("temporal", o))
             return o
         if rest == 0 and r < 0.7:
@@ -306,11 +334,11 @@ def to_py(rng, t, v, st, hashable=False):
         if st.want_suspect and r < 0.35:
             st.want_suspect = False
             if len(items) == 2 and rng.random() < 0.5:
-                o = Pair(*items)
+                o = (PairSub if rng.random() < 0.4 else Pair)(*items)
             elif len(items) == 3 and rng.random() < 0.5:
                 o = Triple(*items)
             else:
-                o = TupleSub(items) if (hashable or rng.random() < 0.5) else ListSub(items)
+                o = _sub(rng, TupleSub)(items) if (hashable or rng.random() < 0.5) else _sub(rng, ListSub)(items)
             st.suspects.append(("collection", o))
             return o
         if hashable:
@@ -320,7 +348,7 @@ def to_py(rng, t, v, st, hashable=False):
         items = [to_py(rng, t[1], e, st, True) for e in v]
         if st.want_suspect and r < 0.35:
             st.want_suspect = False
-            o = FrozenSetSub(items) if (hashable or rng.random() < 0.5) else SetSub(items)
+            o = _sub(rng, FrozenSetSub)(items) if (hashable or rng.random() < 0.5) else _sub(rng, SetSub)(items)
             st.suspects.append(("collection", o))
             return o
         if hashable:
@@ -337,7 +365,7 @@ def to_py(rng, t, v, st, hashable=False):
                 o = collections.defaultdict(int)
                 o.update(pairs)
             else:
-                o = DictSub(pairs)
+                o = _sub(rng, DictSub)(pairs)
             st.suspects.append(("collection", o))
             return o
         q = rng.random()
